@@ -659,9 +659,19 @@ class Evaluator:
             yield from self._exec_fn(st, fn, args, depth + 1)
             return
         dty = t.get("dty") if t else None
+        # an opaque callee sees the current contents of local places it is handed by reference
+        args = [self._resolve_refs(st, a) for a in args]
         v = ("opq", self.fresh(), ("call", path, tuple(args), dty))
         st.effects.append(("call", path, tuple(args), v[1]))
         yield ("ret", st, v)
+
+    def _resolve_refs(self, st, v, depth=0):
+        """References to local places are shown as ('&', current value): effects and opaque terms then mention what was passed."""
+        v0 = v
+        v = strip(v)
+        if depth < 4 and isinstance(v, tuple) and v and v[0] == "ref" and v[1][0] == "loc":
+            return ("&", self._resolve_refs(st, self._read(st, v[1], tuple(v[2])), depth + 1))
+        return v0
 
     def apply(self, st, f, cargs, depth, t=None):
         """Call a function value (fn item, closure aggregate, enum-variant constructor) with already evaluated arguments."""
